@@ -26,7 +26,7 @@ ASSUMPTIONS = [
     "not constrained; quiescence is judged after the longest timer plus the stall length",
 ]
 
-LIFE = ["starting", "connecting", "await-cea", "accepted", "open-idle", "open-inbound", "open-outbound", "open-consumer", "open-sender", "closing"]
+LIFE = ["starting", "connecting", "await-cea", "election", "accepted", "open-idle", "open-inbound", "open-outbound", "open-consumer", "open-sender", "closing"]
 CAUSES = {
     # "close-early": the application stops the node before the connection is Open; the peer, which cannot know,
     # goes on with the handshake and answers a DPR if it gets one
@@ -37,6 +37,9 @@ CAUSES = {
     "connecting": ["refuse", "close-early", "close-early-silent"],
     # "close-racing-cea": the application's close() and the peer's CEA happen at the same time
     "await-cea": ["eof", "rst", "non-cea", "close-early", "close-early-silent", "close-racing-cea", "eof-partial"],
+    # the configured peer's own CER arrived while the node awaited its CEA (RFC 6733 election, not implemented by
+    # the library: the state just has to be left when the connection ends); "close-plain" = close(), nothing to answer
+    "election": ["eof", "rst", "close-plain"],
     # server role: the peer has connected but not yet sent its CER
     "accepted": ["eof", "rst"],
     # "close-silent": local close, the peer keeps the connection but never answers the DPR
@@ -130,13 +133,16 @@ class Termination(explore.Scenario):
             if app_t is not None:
                 app_t.join()
             n.settle(1.0)
-        elif life == "await-cea":
+        elif life in ("await-cea", "election"):
             if role == "server":
                 rt.stop("not-applicable")
             n.peer.wait_connect(timeout=5.0)
             n.peer.accept()
             n.wait_messages(1, timeout=10.0)
             n.settle(1.0)
+            if life == "election":
+                n.peer.send(node.cer())
+                n.settle(1.0)
         else:
             if life == "starting":
                 pt = early_pt
@@ -260,7 +266,7 @@ class Termination(explore.Scenario):
                     dprs = [m for m in node.split_stream(n.peer.received())[0] if node.header_of(m)["code"] == 282]
                     h = node.header_of(dprs[-1])
                     n.peer.send(node.dpa(h["hbh"], h["e2e"]))
-            elif cause == "close-early-silent":
+            elif cause in ("close-early-silent", "close-plain"):
                 d.close()
             elif cause == "close-early":
                 try:
@@ -380,7 +386,7 @@ class Termination(explore.Scenario):
 def all_cases():
     for role in ("client", "server"):
         for life in LIFE:
-            if role == "server" and life in ("starting", "connecting", "await-cea"):
+            if role == "server" and life in ("starting", "connecting", "await-cea", "election"):
                 continue
             if role == "client" and life == "accepted":
                 continue
